@@ -28,6 +28,11 @@ EXPLANATION = (
   " (TAB-tcp) the GSI TCP field is read as HHMMSSFF;"
   " (NUL-field) the paragraph under construction is tested before use (a cumulative block without a first block);"
   " (TAB-tf-codes / TAB-jc) control codes and justification codes are read by finite evaluation of the dispatch, whether it is an if-chain or lookup tables;"
+  ' (DEF-local) no local of the STL reader is read on a path where it was not assigned;'
+  ' (DEP-times) begin is the TCI offset minus the programme start offset (subtitles before the start are dropped), end the TCO offset minus the same; (FIN-blocks) the returning guards on EBN and CF, evaluated on every value of the field, skip exactly user-data / reserved and comment blocks before any model write;'
+  ' (FIN-tf / TAB-tf-codes / TAB-jc) the effect of every text-field control code and justification code, evaluated one code at a time, equals EBU Tech 3264; (ORD-reset) on every path on which a TTI block is final (EBN = FFh) the extension flag is False at every exit, so the state of a finished subtitle never leaks into the next block;'
+  ' (TAB-cct / TAB-dfc / TAB-struct / TAB-iso6937 / FIN-iso6937) code-page, frame-rate, GSI / TTI field layout and the ISO 6937 diacritic table agree with the oracle tables, and the decoder consumes two bytes exactly for 0xC1-0xCF;'
+  ' (TAB-region-key / TAB-reset) regions are shared only between blocks with equal vertical position, line count and alignment; at a new row the styles are reset in teletext subtitles only (in open subtitles they persist);'
 )
 RULE_TEXT = "per table entry / byte value (aggregated per classifier) / struct format / call site"
 UNDECIDED = ["region geometry from VP/JC and row counts", "cumulative-set accumulation behaviour", "the text-field state machine as a whole (span boundaries, space insertion)",
@@ -387,38 +392,21 @@ def check_iso6937_dispatch(ctx):
   f = ix.func("ttconv.stl.iso6937:decode")
   ctx.unit(f.module)
   ce = ConstEval(ix, symbolic_ok=False)
+  from ..rules import fineval
   loops = [n for n in own_nodes(f.node) if isinstance(n, ast.While)]
-  if len(loops) != 1 or not isinstance(loops[0].body[0], ast.If):
+  if len(loops) != 1:
     raise AnalysisError("iso6937.decode: the byte loop was not found")
-  idx = None
-  for n in ast.walk(loops[0].test):
-    if isinstance(n, ast.Name):
-      idx = idx or n.id
   buf = f.params[0]
-  chain = []
-  cur = loops[0].body[0]
-  while isinstance(cur, ast.If):
-    chain.append(cur)
-    cur = cur.orelse[0] if len(cur.orelse) == 1 and isinstance(cur.orelse[0], ast.If) else None
-
-  def step_of(body):
-    for st in body:
-      if isinstance(st, ast.AugAssign) and unparse(st.target) == idx and isinstance(st.value, ast.Constant):
-        return st.value.value
-    return None
+  idx = next((n.id for n in ast.walk(loops[0].test) if isinstance(n, ast.Name) and n.id != buf and n.id != "len"), None)
+  if idx is None:
+    raise AnalysisError("iso6937.decode: the index of the byte loop was not found")
+  # one iteration of the loop body, evaluated for every value of the byte at the index: how far does the index move?
   wrong = []
   for b in range(256):
-    taken = None
-    for c in chain:
-      t = substitute(c.test, {f"int({buf}[{idx}])": "__b", f"{buf}[{idx}]": "__b"})
-      try:
-        if ce.ev(f.module, t, None, {"__b": b}):
-          taken = step_of(c.body)
-          break
-      except NotConst as e:
-        raise AnalysisError(f"iso6937.decode: test `{short(c.test, 50)}` leaves the evaluable subset ({e})")
-    else:
-      taken = step_of(chain[-1].orelse) if chain else None
+    eff = fineval.collect(ix, f, loops[0].body, {buf: bytes([b, 0x41, 0x41]), idx: 0}, receiver="__none__")
+    taken = eff.env.get(idx)
+    if not isinstance(taken, int):
+      raise AnalysisError(f"iso6937.decode: the index after one iteration on byte {b:02X}h could not be evaluated (skipped: {eff.skipped[:3]})")
     want = 2 if 0xC1 <= b <= 0xCF else 1
     if taken != want:
       wrong.append(f"{b:02X}h consumes {taken} byte(s), expected {want}")
